@@ -141,7 +141,7 @@ package kernel
 
 //@ spec PledgerCount(chain *Chain, round uint64) mathint = (Pledging(chain) && round == 0) ? 1 : 0
 //@ func (chain *Chain) consensusNodes
-//@   property C10
+//@   property C10, C09
 //@   uses readsframe
 //@   requires chain != nil && NodeRep(chain.node)
 //@   modifies nothing
